@@ -165,8 +165,13 @@ def run(ctx):
             ddx = rng.range(-40, 40) / 4.0; ddy = rng.range(-40, 40) / 4.0
             if rng.chance(0.2): ddx = 0.0
             elif rng.chance(0.2): ddy = 0.0
-        for px in PAIRS:
-            for py in PAIRS:
+        combos = [(px, py) for px in PAIRS for py in PAIRS]
+        if shape == 'circle':
+            # one diameter serves both axes: a full pair on one axis and a single start / end / centre on the other is sufficient too
+            for single in ('s', 'e', 'm'):
+                for full in PAIRS:
+                    combos += [((single,), full), (full, (single,))]
+        for px, py in combos:
                 if not quick or rng.chance(0.5):
                     attrs = [axis_attrs(shape, 'x', q, x1, x2, rng) for q in px] + [axis_attrs(shape, 'y', q, y1, y2, rng) for q in py]
                     sn = {}; attrs = [sn.setdefault(k, (k, v)) for k, v in attrs if k not in sn]
